@@ -304,6 +304,12 @@ func TestVerifC18(t *testing.T) {
 			continue
 		}
 		pcr := createPreConfigRoute(cfg.Proxies[0])
+		// a proxy object of its own for this table, built by the constructor the binary uses
+		// (each one keeps a goroutine, so not every table of the thorough tier gets one)
+		var px *Proxy
+		if i < 150 || i%20 == 0 {
+			px = NewProxy("c18.verif.test", 1200, "127.0.0.1", false, pcr, NewPreConfigHostResolver(), NewSelfLearnRoute(), false, false)
+		}
 		owner := map[string]string{} // "proto host port" -> entry index
 		destOf := map[string]int{}
 		for ei, en := range ents {
@@ -349,8 +355,7 @@ func TestVerifC18(t *testing.T) {
 			run.EvalN(fmt.Sprintf("yaml|%d|%s", i, h), 20)
 			// the same lookup as a request meets it: To host -> next hop through the proxy's
 			// own routing step (no Route header), in several spellings of the To header
-			if first != "\x00" {
-				px := &Proxy{preConfigRoute: pcr}
+			if first != "\x00" && px != nil {
 				for vi, to := range []string{"<sip:bob@" + h + ">", "\"B\" <sip:" + h + ";user=phone>;tag=x", "sip:carol@" + h, "<sip:dave@" + h + ":5080;transport=tcp>"} {
 					raw := "MESSAGE sip:x@foreign.example SIP/2.0\r\nVia: SIP/2.0/UDP 192.0.2.1:5060;branch=z9hG4bKc18\r\nMax-Forwards: 70\r\nFrom: <sip:a@b>;tag=1\r\nTo: " + to + "\r\nCall-ID: c18@vf\r\nCSeq: 1 MESSAGE\r\nContent-Length: 0\r\n\r\n"
 					msg, err := vfParseUDP([]byte(raw))
@@ -377,6 +382,65 @@ func TestVerifC18(t *testing.T) {
 		if run.WantSample() && nent > 1 {
 			run.Sample(map[string]any{"yaml_route_table": y.String()})
 		}
+	}
+	// one listener meets hundreds of distinct To hosts, several times over: the answer of the
+	// routing step for a host stays the table's answer however many other hosts were routed
+	// in between
+	{
+		table := []string{"*.b.c", "a.b.*", "*.example.com", "example.com", "default", "a.*.c", "gw.example.com", "*.d"}
+		pcr := NewPreConfigRoute()
+		for j, p := range table {
+			pcr.AddRouteItem([]string{"udp", "tcp"}[j%2], p, fmt.Sprintf("nh%d.verif.test:%d", j, 6000+j))
+		}
+		px := NewProxy("c18m.verif.test", 1200, "127.0.0.1", false, pcr, NewPreConfigHostResolver(), NewSelfLearnRoute(), false, false)
+		nhosts := ev.Pick(420, 3000)
+		var many []string
+		for k := 0; k < nhosts; k++ {
+			switch k % 6 {
+			case 0:
+				many = append(many, fmt.Sprintf("h%d.b.c", k))
+			case 1:
+				many = append(many, fmt.Sprintf("a.b.x%d", k))
+			case 2:
+				many = append(many, fmt.Sprintf("u%d.example.com", k))
+			case 3:
+				many = append(many, fmt.Sprintf("n%d.other.org", k)) // default
+			case 4:
+				many = append(many, fmt.Sprintf("a.m%d.c", k))
+			default:
+				many = append(many, []string{"example.com", "gw.example.com", "x.d"}[k/6%3])
+			}
+		}
+		type ans struct {
+			host, proto string
+			port        int
+			err         bool
+		}
+		want := map[string]ans{}
+		for _, h := range many {
+			proto, host, port, err := pcr.FindRoute(h)
+			want[h] = ans{host, proto, port, err != nil}
+		}
+		misrouted := 0
+		for pass := 0; pass < 3 && misrouted == 0; pass++ {
+			for _, h := range many {
+				raw := "MESSAGE sip:x@foreign.example SIP/2.0\r\nVia: SIP/2.0/UDP 192.0.2.1:5060;branch=z9hG4bKc18m\r\nMax-Forwards: 70\r\nFrom: <sip:a@b>;tag=1\r\nTo: <sip:bob@" + h + ">\r\nCall-ID: c18m@vf\r\nCSeq: 1 MESSAGE\r\nContent-Length: 0\r\n\r\n"
+				msg, err := vfParseUDP([]byte(raw))
+				if err != nil {
+					continue
+				}
+				host, port, proto, err := px.getNextRequestHop(msg)
+				got := ans{host, proto, port, err != nil}
+				w := want[h]
+				if got.err != w.err || (!got.err && (got.host != w.host || got.port != w.port || !strings.EqualFold(got.proto, w.proto))) {
+					misrouted++
+					run.Violation("after many other To hosts were routed through the listener, the routing step answers differently from the table for this host", map[string]any{"to_host": h, "pass": pass, "distinct_hosts_routed": len(want), "table": table, "table_answer": fmt.Sprintf("%s %s:%d", w.proto, w.host, w.port), "request_path_answer": fmt.Sprintf("%s %s:%d err=%v", got.proto, got.host, got.port, got.err)})
+					break
+				}
+				run.Eval(fmt.Sprintf("manyhosts|%d|%d", pass, len(h)%7))
+			}
+		}
+		run.Observe("distinct_to_hosts_routed_through_one_listener", len(want))
 	}
 	// concurrent lookups on one table (the listeners of a service share it): same answers
 	{
